@@ -359,9 +359,10 @@ fn main() {
                 }
                 let mut delivered: Vec<usize> = keep.into_iter().collect();
                 let mut tag = "late_fdt";
-                if round == 5 && !sh.em.oti_of(0).inband_fti {
-                    // FDT-only OTI: every FDT copy is lost until the whole object (close-object packet included) has
-                    // arrived; one copy arrives afterwards (the carousel goes on)
+                if round == 5 {
+                    // every FDT copy is lost until the whole object (close-object packet included) has arrived; one copy
+                    // arrives afterwards (the carousel goes on). FDT-only OTI: the packets wait in the cache; in-band
+                    // OTI: the decoded blocks wait for the writer
                     delivered.retain(|k| sh.em.stream[*k].toi() != 0);
                     delivered.push(chosen);
                     tag = "fdt_after_object";
